@@ -27,7 +27,7 @@ NUMBER_MODEL = "Z: table ids are symbolic Ints constrained by the representation
 EXPLANATION = (
     "Inductive step: the real update_samplers_id_table / set_samplers / set_scheduler run from an arbitrary symbolic table (membership of "
     "each of 4 classes a free Bool, ids free Ints constrained to be a bijection onto 0..m-1) with a symbolic replacement list (class per "
-    "position a free Int): z3 proves old entries unchanged, new classes numbered m, m+1, ... in first-seen order, bijection preserved. "
+    "position a free Int): z3 proves old entries unchanged, new classes on the fresh ids m, m+1, ... (any order), bijection onto 0..m'-1 preserved (the representation invariant of the len()-based numbering). "
     "Labels: real calibrations interleaved with symbolic replacement scenarios, every stored label must be the table id of the class that "
     "produced the row. Recovery: a checkpoint written by the real calibrator is read back by the real plotting helper and the recovered "
     "names compared with the producing classes."
@@ -43,7 +43,7 @@ NCLS = 4
 
 
 def bounds(tier):
-    return {"quick": "pool of 4 classes, arbitrary symbolic pre-table, replacement lists of length 0..3 (symbolic class per position), three mutators; constructor base case for every line-up of length 1..3; label/recovery scenarios: 12 symbolic replacement scenarios",
+    return {"quick": "pool of 4 classes, arbitrary symbolic pre-table, replacement lists of length 0..3 (symbolic class per position), three mutators; constructor base case for every line-up of length 1..3; label/recovery scenarios: 15 symbolic replacement scenarios",
             "thorough": "same with lists up to length 4 and 10 scenarios"}[tier]
 
 
@@ -122,9 +122,14 @@ def case_step(mutator, L):
         ok_keys = set(after) == set(before) | set(fresh)
         conds = [z3.BoolVal(ok_keys)]
         if ok_keys:
-            for j, nm in enumerate(fresh):
-                conds.append(lift(after[nm]) == m + j)
-        ctx.prove(z3.And(*conds), "new_ids_fresh_contiguous", f"new classes {fresh} numbered from {m} in first-seen order")
+            # fresh (no existing id reused), pairwise distinct, and the representation invariant the induction rests on is
+            # re-established (ids are 0..m'-1); WHICH of the new classes gets which new id is not prescribed
+            for nm in fresh:
+                conds.append(z3.And(lift(after[nm]) >= m, lift(after[nm]) < m + len(fresh)))
+            for i1 in range(len(fresh)):
+                for i2 in range(i1 + 1, len(fresh)):
+                    conds.append(lift(after[fresh[i1]]) != lift(after[fresh[i2]]))
+        ctx.prove(z3.And(*conds), "new_ids_fresh_contiguous", f"new classes {fresh} get the fresh ids {m}..{m + len(fresh) - 1} (any order)")
         if mutator == "set_samplers":
             ctx.prove(z3.BoolVal([type(s) for s in c.scheduler.samplers] == [CLASSES[k] for k in seq]), "new_ids_fresh_contiguous", "scheduler now holds the new samplers")
         ctx.sample({"case": name, "pre": sorted(before), "list": seq})
@@ -155,9 +160,9 @@ def case_step(mutator, L):
             nm = CLASSES[k].__name__
             if nm not in table and nm not in fresh:
                 fresh.append(nm)
-        exp = dict(table)
-        exp.update({nm: m + j for j, nm in enumerate(fresh)})
-        return after != exp, f"table {table} + {mutator}({[CLASSES[k].__name__ for k in seq]}) -> {after}; expected {exp}"
+        bad = any(after.get(k) != v for k, v in table.items()) or set(after) != set(table) | set(fresh) \
+            or sorted(after[nm] for nm in fresh if nm in after) != list(range(m, m + len(fresh)))
+        return bad, f"table {table} + {mutator}({[CLASSES[k].__name__ for k in seq]}) -> {after}; expected the old entries unchanged and {fresh} on the fresh ids {list(range(m, m + len(fresh)))}"
 
     return Case(name, body, replay, split=3 if L >= 3 else 0)
 
@@ -174,8 +179,8 @@ def case_construct(L):
         for k in seq:
             if CLASSES[k].__name__ not in first_seen:
                 first_seen.append(CLASSES[k].__name__)
-        exp = {nm: i for i, nm in enumerate(first_seen)}
-        ctx.prove(z3.BoolVal(dict(tab) == exp), "new_ids_fresh_contiguous", f"constructor table for {[CLASSES[k].__name__ for k in seq]}: {dict(tab)}, expected {exp}")
+        ok = set(tab) == set(first_seen) and sorted(tab.values()) == list(range(len(first_seen)))
+        ctx.prove(z3.BoolVal(ok), "new_ids_fresh_contiguous", f"constructor table for {[CLASSES[k].__name__ for k in seq]}: {dict(tab)}, expected one id of 0..{len(first_seen) - 1} per class")
 
     def replay(cex):
         seq = [int(cex.values.get(f"cls{p}") or 0) for p in range(L)]
@@ -184,8 +189,9 @@ def case_construct(L):
         for k in seq:
             if CLASSES[k].__name__ not in first_seen:
                 first_seen.append(CLASSES[k].__name__)
-        exp = {nm: i for i, nm in enumerate(first_seen)}
-        return dict(c.samplers_id_table) != exp, f"Calibrator(samplers={[CLASSES[k].__name__ for k in seq]}).samplers_id_table = {c.samplers_id_table}; ids must be 0..m-1 in first-seen order: {exp}"
+        tab = dict(c.samplers_id_table)
+        bad = set(tab) != set(first_seen) or sorted(tab.values()) != list(range(len(first_seen)))
+        return bad, f"Calibrator(samplers={[CLASSES[k].__name__ for k in seq]}).samplers_id_table = {tab}; must give each of {first_seen} one id of 0..{len(first_seen) - 1}"
 
     return Case(name, body, replay)
 
@@ -205,6 +211,10 @@ SCENARIOS = [
     ([0, 0, 1], [(3, ("set_samplers", [1, 1, 0])), (3, None)]),
     ([0, 0, 1], [(3, ("set_samplers", [2])), (2, None)]),
     ([1, 1, 0, 1], [(4, ("set_scheduler", [3, 2])), (2, None)]),
+    # append-only replacements introducing two new classes at once, in and against alphabetical order (recoverable on the pinned tree)
+    ([0, 1], [(2, ("set_samplers", [0, 1, 3, 2])), (4, None)]),
+    ([0, 1], [(2, ("set_scheduler", [0, 1, 2, 3])), (4, None)]),
+    ([1, 0], [(2, ("set_scheduler", [1, 0, 3, 2])), (4, None)]),
 ]
 
 
@@ -271,12 +281,34 @@ def _recover(folder, c, rec):
 
 
 def _stale(idx):
-    """Scenarios in which the table rebuilt from the pickled scheduler alone cannot equal the calibrator's table."""
+    """Scenarios of the listed known finding (id table not persisted): a class that produced rows is no longer in the final
+    line-up, or its position of first appearance there differs from its id. Computed from the scenario DATA with a reference
+    numbering (ids in order of first use) - never by running the code under test, so a change of the code cannot move a new
+    failure into the known region."""
     init, steps = SCENARIOS[idx]
-    c, rec, tables = _run_scenario(idx, None)
-    rebuilt = cal.Calibrator._construct_samplers_id_table(list(c.scheduler.samplers))
-    used = {int(x) for x in c.method_samp}
-    return any(rebuilt.get(k) != v for k, v in c.samplers_id_table.items() if v in used)
+    ref = {}
+    lineup = list(init)
+    used = set()
+
+    def number(seq):
+        for k in seq:
+            ref.setdefault(k, len(ref))
+
+    number(lineup)
+    bid = 0
+    for nb, repl in steps:
+        for _ in range(nb):
+            used.add(lineup[bid % len(lineup)])
+            bid += 1
+        if repl is not None:
+            lineup = list(repl[1])
+            number(lineup)
+            if repl[0] == "set_scheduler":
+                bid = 0  # a new round-robin scheduler starts from its first sampler; set_samplers keeps the counter
+    rebuilt = {}
+    for k in lineup:
+        rebuilt.setdefault(k, len(rebuilt))
+    return any(rebuilt.get(k) != ref[k] for k in used)
 
 
 def case_labels(nsc):
@@ -339,6 +371,6 @@ def cases(tier, seed):
 
 MANIFEST = {
     "category": "model_checking",
-    "text": "Inductive symbolic step of the real table mutators from an arbitrary id table (free membership bits, free ids under the bijection invariant) with a symbolic replacement list: z3 proves ids are never reassigned and new classes are numbered contiguously in first-seen order; real calibrations with symbolic replacement scenarios prove every stored label is the id of the producing class; checkpoints written by the real calibrator are read by the real plotting helper and the recovered names compared with the producers.",
+    "text": "Inductive symbolic step of the real table mutators from an arbitrary id table (free membership bits, free ids under the bijection invariant) with a symbolic replacement list: z3 proves ids are never reassigned and new classes get fresh, pairwise distinct ids that re-establish the table invariant; real calibrations with symbolic replacement scenarios prove every stored label is the id of the producing class; checkpoints written by the real calibrator are read by the real plotting helper and the recovered names compared with the producers.",
     "note": "Pool of 4 classes, lists <= 3; the recovery clause executes real files; the part of the recovery clause that fails on this tree (table not persisted: after a replacement the pickled scheduler no longer determines the ids) is a listed known finding, any other failure is a violation.",
 }
